@@ -93,7 +93,7 @@ impl BigProp {
     }
 }
 
-pub const BIG_SIZES: [u32; 16] = [257, 300, 1000, 1023, 1024, 1025, 2049, 4095, 4096, 4097, 65535, 65536, 65537, 70_000, 131_072, 131_073];
+pub const BIG_SIZES: [u32; 18] = [257, 300, 1000, 1023, 1024, 1025, 2049, 4095, 4096, 4097, 65535, 65536, 65537, 70_000, 131_072, 131_073, 262_150, 524_289];
 
 pub fn big_strategy(kinds: Vec<Kind>, thorough: bool) -> BoxedStrategy<BigCase> {
     fn near() -> BoxedStrategy<u8> {
@@ -130,7 +130,7 @@ pub fn big_strategy(kinds: Vec<Kind>, thorough: bool) -> BoxedStrategy<BigCase> 
             if kind == Kind::Lru {
                 v.push((2, Just(BOp::RemoveLru).boxed()));
                 v.push((2, Just(BOp::GetLru).boxed()));
-                v.push((3, prop_oneof![Just(0u32), Just(1), Just(2), Just(10), Just(255), Just(256), Just(600), Just(4096), Just(65_536), Just(70_000), Just(200_000)].prop_map(|to| BOp::Resize { to, rel: false }).boxed()));
+                v.push((3, prop_oneof![Just(0u32), Just(1), Just(2), Just(10), Just(255), Just(256), Just(600), Just(4096), Just(65_536), Just(70_000), Just(200_000), Just(3), Just(5)].prop_map(|to| BOp::Resize { to, rel: false }).boxed()));
                 v.push((1, (0u32..4).prop_map(|to| BOp::Resize { to, rel: true }).boxed()));
             }
             (Just(kind), Just(a), Just(b), Just(w), Just(prefill), prop::collection::vec(proptest::strategy::Union::new_weighted(v), 1..=(if thorough { 40 } else { 20 })))
@@ -857,6 +857,70 @@ fn arc_pair(n: usize, x: usize, y: usize, hit_recent: bool) -> Result<bool, Stri
     Ok(true)
 }
 
+/// the floor and the cap of the adaptation target at several scales: with every entry in the
+/// frequent list a frequent-ghost hit at p = 0 must leave p at 0; after `n` recent-ghost hits p
+/// sits at the size and a further recent-ghost hit must leave it there
+fn arc_bounds(n: usize) -> Result<bool, String> {
+    let mut c: AdaptiveCache<u64, u32> = match AdaptiveCache::new(n) {
+        Ok(c) => c,
+        Err(_) => return Ok(false),
+    };
+    for k in 0..n as u64 {
+        c.put(k, 0);
+    }
+    for k in 0..n as u64 {
+        c.get(&k);
+    }
+    // every entry is frequent now: a never-seen key pushes the least recent one to the frequent ghosts
+    c.put(n as u64, 0);
+    let ghost = match c.frequent_evict_keys().next().copied() {
+        Some(g) => g,
+        None => return Ok(false),
+    };
+    if c.partition() != 0 {
+        return Err(format!("ARC size {n}: p = {} although no recent-ghost hit has happened yet", c.partition()));
+    }
+    c.put(ghost, 1);
+    if c.partition() != 0 {
+        return Err(format!("ARC size {n}: a frequent-ghost hit at p = 0 must leave p at 0 (floored), p is now {}", c.partition()));
+    }
+    // the cap: fresh cache, scan twice, then more recent-ghost hits than the size
+    let mut c: AdaptiveCache<u64, u32> = AdaptiveCache::new(n).map_err(|e| e.to_string())?;
+    let mut next = 0u64;
+    for _ in 0..2 * n {
+        c.put(next, 0);
+        next += 1;
+    }
+    let mut hits = 0;
+    while c.partition() < n && hits < 4 * n {
+        match c.recent_evict_keys().next().copied() {
+            Some(k) => {
+                c.put(k, 1);
+            }
+            None => {
+                c.put(next, 0);
+                next += 1;
+            }
+        }
+        hits += 1;
+    }
+    if c.partition() != n {
+        return Ok(false);
+    }
+    // refill the recent ghosts and hit once more
+    for _ in 0..3 {
+        c.put(next, 0);
+        next += 1;
+    }
+    if let Some(k) = c.recent_evict_keys().next().copied() {
+        c.put(k, 2);
+        if c.partition() != n {
+            return Err(format!("ARC size {n}: p was at the size and a recent-ghost hit must leave it there (capped), p is now {}", c.partition()));
+        }
+    }
+    Ok(true)
+}
+
 /// the grid: every (x, y) with 1 <= x, y <= `max` in the thorough tier; in the quick tier all
 /// exact multiples (where an inexact division first goes wrong) with their neighbours, plus a
 /// diagonal sample. Returns (pairs reached, pairs attempted, first violation).
@@ -871,6 +935,14 @@ pub fn arc_adaptation_grid(thorough: bool, workers: usize) -> (u64, u64, Option<
             if thorough || mult || (near && (x + y) % 3 == 0) || (x * 31 + y * 17) % 97 == 0 {
                 pairs.push((x, y));
             }
+        }
+    }
+    // lopsided pairs: a step of several hundred (one ghost list hundreds of times longer)
+    let mut lopsided: Vec<(usize, usize, usize)> = vec![];
+    for &long in &[255usize, 256, 257, 300, 511, 512, 513, 700] {
+        for &short in &[1usize, 2, 3] {
+            lopsided.push((3 * long + 16, short, long));
+            lopsided.push((3 * long + 16, long, short));
         }
     }
     let chunks: Vec<Vec<(usize, usize)>> = (0..workers.max(1)).map(|w| pairs.iter().copied().enumerate().filter(|(i, _)| i % workers.max(1) == w).map(|(_, p)| p).collect()).collect();
@@ -913,6 +985,24 @@ pub fn arc_adaptation_grid(thorough: bool, workers: usize) -> (u64, u64, Option<
         out.1 += t;
         if out.2.is_none() {
             out.2 = b;
+        }
+    }
+    for (nn, x, y) in lopsided {
+        for dir in [true, false] {
+            out.1 += 1;
+            match catch_unwind(AssertUnwindSafe(|| arc_pair(nn, x, y, dir))) {
+                Ok(Ok(true)) => out.0 += 1,
+                Ok(Err(e)) if out.2.is_none() => out.2 = Some(e),
+                _ => {}
+            }
+        }
+    }
+    for nn in [1usize, 2, 5, 100, 999, 1000, 1001, 2500, 5000] {
+        out.1 += 1;
+        match catch_unwind(AssertUnwindSafe(|| arc_bounds(nn))) {
+            Ok(Ok(true)) => out.0 += 1,
+            Ok(Err(e)) if out.2.is_none() => out.2 = Some(e),
+            _ => {}
         }
     }
     out
